@@ -1,5 +1,6 @@
 /- helper lemmas for C16 part 3 (control messages) -/
 import TinyVerif.Model.Cmsg
+set_option linter.unusedSimpArgs false
 namespace TinyVerif.Cmsg
 
 theorem le_length (k n : Nat) : (le k n).length = k := by
@@ -61,6 +62,49 @@ theorem groups4_enc (fds rest : List Nat) (hf : ∀ f ∈ fds, f < 256 ^ 4) :
     rw [unle_le 4 f (hf f (by simp)), ih (fun x hx => hf x (by simp [hx]))]
 
 
+/-! ### one step of the iterator on a header that is CMSG_OK -/
+
+theorem cmsgOk_iff (ctl off : Nat) (h : Hdr) : cmsgOk ctl off h = true ↔ HDR ≤ h.len ∧ h.len ≤ ctl - off := by
+  simp only [cmsgOk, Bool.and_eq_true, decide_eq_true_eq]
+
+theorem isRights_iff (h : Hdr) : isRights h = true ↔ (h.typ = SCM_RIGHTS ∧ h.level = SOL_SOCKET) := by
+  simp only [isRights, Bool.and_eq_true, decide_eq_true_eq]
+
+theorem nxthdr_ok (base ctl off : Nat) (h : Hdr) (hok : cmsgOk ctl off h = true) (hoff : off + HDR ≤ ctl)
+    (hctl : ctl < 2 ^ 63) (hb : base + ctl < U64) :
+    nxthdr base ctl off h = .ok (if ctl ≤ off + cmsgAlign h.len + HDR then none else some (cmsgAlign h.len)) := by
+  rw [cmsgOk_iff] at hok
+  have h1 := align_ge h.len
+  have h2 := align_lt h.len
+  simp only [HDR, U64] at *
+  simp only [nxthdr, HDR, U64]
+  rw [if_neg (by omega), if_neg (by omega), if_neg (by omega), if_neg (by omega), if_neg (by omega)]
+  by_cases hc : ctl ≤ off + cmsgAlign h.len + 16
+  · rw [if_pos (by omega), if_pos hc]
+  · rw [if_neg (by omega), if_neg hc]
+
+theorem hdrStep_rights_ok (base ctl off : Nat) (m : List Nat) (h : Hdr) (hr : isRights h = true)
+    (hok : cmsgOk ctl off h = true) (hoff : off + HDR ≤ ctl) (hm : ctl ≤ off + m.length)
+    (hctl : ctl < 2 ^ 63) (hb : base + ctl < U64) :
+    hdrStep base ctl off m h =
+      .ok (some (groups4 ((h.len - HDR) / FD) (m.drop HDR)), [(off, HDR), (off + HDR, FD * ((h.len - HDR) / FD))],
+        if ctl ≤ off + cmsgAlign h.len + HDR then none else some (cmsgAlign h.len)) := by
+  have hnx := nxthdr_ok base ctl off h hok hoff hctl hb
+  rw [cmsgOk_iff] at hok
+  rw [isRights_iff] at hr
+  simp only [hdrStep, if_pos hr, hnx]
+  simp only [HDR, FD, U64, ISIZE_MAX] at *
+  rw [if_neg (by omega), if_neg (by omega), if_neg (by omega), if_neg (by simp only [List.length_drop]; omega)]
+
+theorem hdrStep_foreign_ok (base ctl off : Nat) (m : List Nat) (h : Hdr) (hr : isRights h = false)
+    (hok : cmsgOk ctl off h = true) (hoff : off + HDR ≤ ctl) (hctl : ctl < 2 ^ 63) (hb : base + ctl < U64) :
+    hdrStep base ctl off m h =
+      .ok (none, [(off, HDR)], if ctl ≤ off + cmsgAlign h.len + HDR then none else some (cmsgAlign h.len)) := by
+  have hnx := nxthdr_ok base ctl off h hok hoff hctl hb
+  have hr' : ¬ (h.typ = SCM_RIGHTS ∧ h.level = SOL_SOCKET) := by
+    intro hc; rw [(isRights_iff h).mpr hc] at hr; cases hr
+  simp only [hdrStep, if_neg hr', hnx]
+
 theorem kfill_facts (msgs : List (List Nat)) : ∀ (rem : Nat) (g : List Nat), rem ≤ g.length →
     (kfill msgs rem g).2 ≤ rem ∧ ((kfill msgs rem g).2 = 0 ∨ 20 ≤ (kfill msgs rem g).2) ∧
     ((kfill msgs rem g).2 = 0 → delivered msgs rem = []) ∧ (kfill msgs rem g).1.length = g.length := by
@@ -90,28 +134,28 @@ theorem kfill_facts (msgs : List (List Nat)) : ∀ (rem : Nat) (g : List Nat), r
 
 def FdsOk (msgs : List (List Nat)) : Prop := ∀ fds ∈ msgs, ∀ f ∈ fds, f < 256 ^ 4
 
-theorem iter_kfill (msgs : List (List Nat)) : ∀ (rem : Nat) (g : List Nat) (fuel off : Nat),
-    rem ≤ g.length → rem < 2 ^ 63 → FdsOk msgs →
+theorem iter_kfill (base : Nat) (msgs : List (List Nat)) : ∀ (rem : Nat) (g : List Nat) (fuel off : Nat),
+    rem ≤ g.length → off + rem < 2 ^ 63 → base + off + rem < U64 → FdsOk msgs →
     0 < (kfill msgs rem g).2 → (kfill msgs rem g).2 < fuel →
-    (iterFrom fuel (off + (kfill msgs rem g).2) off (kfill msgs rem g).1).msgs = delivered msgs rem ∧
-    (iterFrom fuel (off + (kfill msgs rem g).2) off (kfill msgs rem g).1).bad = none ∧
-    ∀ x ∈ (iterFrom fuel (off + (kfill msgs rem g).2) off (kfill msgs rem g).1).reads,
+    (iterFrom fuel base (off + (kfill msgs rem g).2) off (kfill msgs rem g).1).msgs = delivered msgs rem ∧
+    (iterFrom fuel base (off + (kfill msgs rem g).2) off (kfill msgs rem g).1).bad = none ∧
+    ∀ x ∈ (iterFrom fuel base (off + (kfill msgs rem g).2) off (kfill msgs rem g).1).reads,
       off ≤ x.1 ∧ x.1 + x.2 ≤ off + (kfill msgs rem g).2 := by
   induction msgs with
-  | nil => intro rem g fuel off _ _ _ h; simp [kfill] at h
+  | nil => intro rem g fuel off _ _ _ _ h; simp [kfill] at h
   | cons fds t ih =>
-    intro rem g fuel off hg hrem hfd hpos hfuel
+    intro rem g fuel off hg hrem hbase hfd hpos hfuel
     have hfdt : FdsOk t := fun x hx => hfd x (by simp [hx])
     by_cases h16 : rem < HDR
     · have e1 : kfill (fds :: t) rem g = kfill t rem g := by simp only [kfill, if_pos h16]
       have e2 : delivered (fds :: t) rem = delivered t rem := by simp only [delivered, if_pos h16]
       rw [e1] at hpos hfuel ⊢; rw [e2]
-      exact ih rem g fuel off hg hrem hfdt hpos hfuel
+      exact ih rem g fuel off hg hrem hbase hfdt hpos hfuel
     · by_cases hk : min fds.length ((rem - HDR) / FD) = 0
       · have e1 : kfill (fds :: t) rem g = kfill t rem g := by simp only [kfill, if_neg h16, if_pos hk]
         have e2 : delivered (fds :: t) rem = delivered t rem := by simp only [delivered, if_neg h16, if_pos hk]
         rw [e1] at hpos hfuel ⊢; rw [e2]
-        exact ih rem g fuel off hg hrem hfdt hpos hfuel
+        exact ih rem g fuel off hg hrem hbase hfdt hpos hfuel
       · -- the message is written
         obtain ⟨k, hkd⟩ : ∃ k, k = min fds.length ((rem - HDR) / FD) := ⟨_, rfl⟩
         obtain ⟨adv, hadvd⟩ : ∃ adv, adv = min (cmsgSpace (FD * k)) rem := ⟨_, rfl⟩
@@ -145,6 +189,7 @@ theorem iter_kfill (msgs : List (List Nat)) : ∀ (rem : Nat) (g : List Nat) (fu
         rw [← hr2] at hpos hfuel
         rw [← hr1, ← hr2]
         rw [← hr2] at f1 f2 f3
+        rw [← hr1] at f4
         obtain ⟨fuel', rfl⟩ : ∃ f', fuel = f' + 1 := ⟨fuel - 1, by omega⟩
         have hm : encHdr (cmsgLen (FD * k)) SOL_SOCKET SCM_RIGHTS ++ encFds (fds.take k) ++ pad ++ r1 =
             encHdr (cmsgLen (FD * k)) SOL_SOCKET SCM_RIGHTS ++ (encFds (fds.take k) ++ (pad ++ r1)) := by
@@ -164,16 +209,20 @@ theorem iter_kfill (msgs : List (List Nat)) : ∀ (rem : Nat) (g : List Nat) (fu
         rw [hm]
         rw [hlen] at hdec hdrop16 hdropadv
         have hn : (16 + 4 * k - HDR) / FD = k := by simp only [HDR, FD]; omega
-        have hl16 : ¬ (16 + 4 * k < HDR) := by simp only [HDR]; omega
-        have hdl : ¬ ((encFds (fds.take k) ++ (pad ++ r1)).length < FD * k) := by
-          simp only [List.length_append, encFds_length, htk]; omega
-        have hcond : (SCM_RIGHTS = SCM_RIGHTS ∧ SOL_SOCKET = SOL_SOCKET) := ⟨rfl, rfl⟩
+        have hmlen : (encHdr (16 + 4 * k) SOL_SOCKET SCM_RIGHTS ++ (encFds (fds.take k) ++ (pad ++ r1))).length =
+            adv + (g.drop adv).length := by
+          simp only [List.length_append, encHdr_length, encFds_length, htk, hpadlen, f4, HDR, FD]; omega
+        have hstep := hdrStep_rights_ok base (off + (adv + r2)) off
+          (encHdr (16 + 4 * k) SOL_SOCKET SCM_RIGHTS ++ (encFds (fds.take k) ++ (pad ++ r1))) ⟨16 + 4 * k, SOL_SOCKET, SCM_RIGHTS⟩
+          (by rw [isRights_iff]; exact ⟨rfl, rfl⟩) (by rw [cmsgOk_iff]; simp only [HDR]; omega) (by simp only [HDR]; omega)
+          (by rw [hmlen]; simp only [List.length_drop]; omega) (by omega) (by simp only [U64] at hbase ⊢; omega)
+        simp only [hn, hdrop16, hgr] at hstep
+        rw [hlen]
         rcases f2 with f2 | f2
         · -- nothing follows: the iterator stops here
-          have hnx : nxthdr (off + (adv + r2)) off ⟨16 + 4 * k, SOL_SOCKET, SCM_RIGHTS⟩ = .ok none := by
-            simp only [nxthdr, if_neg hl16]
-            rw [if_neg (by omega), if_pos (by simp only [HDR]; omega)]
-          simp only [iterFrom, hlen, hdec, hdrop16, if_neg hl16, hn, if_neg hdl, hnx, hgr, f3 f2, and_self, ↓reduceIte]
+          rw [if_pos (by simp only [HDR]; omega)] at hstep
+          simp only [iterFrom, hdec, hstep, f3 f2, Option.toList, List.append_nil, List.singleton_append, List.cons_append,
+            List.nil_append]
           refine ⟨trivial, trivial, ?_⟩
           intro x hx
           simp only [List.mem_cons, List.not_mem_nil, or_false] at hx
@@ -181,16 +230,15 @@ theorem iter_kfill (msgs : List (List Nat)) : ∀ (rem : Nat) (g : List Nat) (fu
         · -- a further message follows, exactly CMSG_SPACE further on
           have hadveq : adv = cmsgAlign (16 + 4 * k) := by
             rw [hadvd, hsp]; apply Nat.min_eq_left; omega
-          have hnx : nxthdr (off + (adv + r2)) off ⟨16 + 4 * k, SOL_SOCKET, SCM_RIGHTS⟩ = .ok (some adv) := by
-            simp only [nxthdr, if_neg hl16]
-            rw [if_neg (by omega), if_neg (by simp only [HDR]; omega), hadveq]
-          have := ih (rem - adv) (g.drop adv) fuel' (off + adv) (by simp; omega) (by omega) hfdt
+          rw [if_neg (by simp only [HDR]; omega), ← hadveq] at hstep
+          have := ih (rem - adv) (g.drop adv) fuel' (off + adv) (by simp; omega) (by omega) (by omega) hfdt
             (by rw [← hr2]; omega) (by rw [← hr2]; omega)
           rw [← hr1, ← hr2] at this
           obtain ⟨i1, i2, i3⟩ := this
           have hoff : off + adv + r2 = off + (adv + r2) := by omega
           rw [hoff] at i1 i2 i3
-          simp only [iterFrom, hlen, hdec, hdrop16, if_neg hl16, hn, if_neg hdl, hnx, hgr, hdropadv, i1, i2, and_self, ↓reduceIte]
+          simp only [iterFrom, hdec, hstep, hdropadv, i1, i2, Option.toList, List.singleton_append, List.cons_append,
+            List.nil_append]
           refine ⟨trivial, trivial, ?_⟩
           intro x hx
           simp only [List.mem_cons] at hx
@@ -198,6 +246,357 @@ theorem iter_kfill (msgs : List (List Nat)) : ∀ (rem : Nat) (g : List Nat) (fu
           · simp only [HDR]; omega
           · simp only [HDR, FD]; omega
           · have := i3 x hx; omega
+
+/-! ### the iterator against the CMSG_OK walk, for EVERY memory content -/
+
+/-- what the iterator does with the header `h` at `o` when `cmsg_nxthdr!` ends the walk there -/
+def lastStep (base ctl o : Nat) (m : List Nat) (h : Hdr) : IterOut :=
+  match hdrStep base ctl o m h with
+  | .error out => out
+  | .ok (item, rd, _) => ⟨item.toList, rd, none⟩
+
+theorem decHdr_some (m : List Nat) (h : HDR ≤ m.length) : ∃ hd, decHdr m = some hd := by
+  simp only [decHdr, if_neg (by omega : ¬ m.length < HDR)]
+  exact ⟨_, rfl⟩
+
+/-- at a header that is not CMSG_OK `cmsg_nxthdr!` never produces a further header -/
+theorem nxthdr_not_ok (base ctl off : Nat) (h : Hdr) (hnok : cmsgOk ctl off h = false) (d : Nat) :
+    nxthdr base ctl off h ≠ .ok (some d) := by
+  have hn : ¬ (HDR ≤ h.len ∧ h.len ≤ ctl - off) := by
+    intro hc; rw [(cmsgOk_iff ctl off h).mpr hc] at hnok; cases hnok
+  have h1 := align_ge h.len
+  simp only [HDR] at hn
+  simp only [nxthdr, HDR]
+  repeat' split
+  all_goals first
+    | (intro hc; cases hc; done)
+    | (intro hc; omega)
+    | skip
+  all_goals (intro hc; omega)
+
+theorem hdrStep_not_ok_next (base ctl off : Nat) (m : List Nat) (h : Hdr) (hnok : cmsgOk ctl off h = false)
+    (item : Option (List Nat)) (rd : List (Nat × Nat)) (nx : Option Nat)
+    (hs : hdrStep base ctl off m h = .ok (item, rd, nx)) : nx = none := by
+  cases nx with
+  | none => rfl
+  | some d =>
+    exfalso
+    have hno := nxthdr_not_ok base ctl off h hnok d
+    simp only [hdrStep] at hs
+    repeat' split at hs
+    all_goals first
+      | (cases hs; done)
+      | (cases hs; exact hno (by assumption))
+
+theorem iterFrom_malformed (fuel base ctl off : Nat) (m : List Nat) (h : Hdr) (hdec : decHdr m = some h)
+    (hnok : cmsgOk ctl off h = false) : iterFrom (fuel + 1) base ctl off m = lastStep base ctl off m h := by
+  simp only [iterFrom, hdec, lastStep]
+  cases hs : hdrStep base ctl off m h with
+  | error o => rfl
+  | ok v =>
+    obtain ⟨item, rd, nx⟩ := v
+    have := hdrStep_not_ok_next base ctl off m h hnok item rd nx hs
+    subst this
+    simp
+
+/-- the relation between the CMSG_OK walk `w` and the run `r` of the iterator, both started at offset `lo` -/
+def WalkPost (base : Nat) (mem : List Nat) (ctl lo : Nat) (w : List (Nat × Hdr) × Stop) (r : IterOut) : Prop :=
+  match w.2 with
+  | .done => ∃ pre, r = ⟨rightsOf mem w.1, pre, none⟩ ∧ ∀ x ∈ pre, lo ≤ x.1 ∧ x.1 + x.2 ≤ ctl
+  | .malformed o h =>
+    ∃ pre, r = ⟨rightsOf mem w.1 ++ (lastStep base ctl o (mem.drop o) h).msgs,
+                pre ++ (lastStep base ctl o (mem.drop o) h).reads, (lastStep base ctl o (mem.drop o) h).bad⟩ ∧
+      (∀ x ∈ pre, lo ≤ x.1 ∧ x.1 + x.2 ≤ o) ∧ lo ≤ o ∧ o + HDR ≤ ctl ∧ decHdr (mem.drop o) = some h ∧
+      cmsgOk ctl o h = false
+  | .unmapped => False
+  | .fuel => False
+
+theorem iter_walk (base : Nat) (mem : List Nat) (ctl : Nat) (hmem : ctl ≤ mem.length) (hctl : ctl < 2 ^ 63)
+    (hb : base + ctl < U64) : ∀ (fuel fuel' off : Nat), off + HDR ≤ ctl → ctl - off < fuel → ctl - off < fuel' →
+    WalkPost base mem ctl off (wfWalk uNext fuel' mem ctl off) (iterFrom fuel base ctl off (mem.drop off)) := by
+  intro fuel
+  induction fuel with
+  | zero => intro fuel' off _ h; omega
+  | succ fuel ih =>
+    intro fuel' off hoff hf hf'
+    obtain ⟨fuel', rfl⟩ : ∃ f, fuel' = f + 1 := ⟨fuel' - 1, by omega⟩
+    obtain ⟨h, hdec⟩ := decHdr_some (mem.drop off) (by simp only [List.length_drop]; omega)
+    cases hok : cmsgOk ctl off h with
+    | false =>
+      rw [iterFrom_malformed fuel base ctl off _ h hdec hok]
+      simp only [wfWalk, hdec, hok, WalkPost]
+      refine ⟨[], ?_, ?_, Nat.le_refl _, hoff, hdec, hok⟩
+      · simp [rightsOf]
+      · intro x hx; cases hx
+    | true =>
+      have hlen := (cmsgOk_iff ctl off h).mp hok
+      have ha1 := align_ge h.len
+      have hmlen : ctl ≤ off + (mem.drop off).length := by simp only [List.length_drop]; omega
+      by_cases hc : ctl ≤ off + cmsgAlign h.len + HDR
+      · -- the walk ends with this header
+        have hu : uNext ctl off h = none := by simp only [uNext, if_pos hc]
+        simp only [wfWalk, hdec, hok, hu, WalkPost, if_true]
+        cases hr : isRights h with
+        | true =>
+          have hs := hdrStep_rights_ok base ctl off (mem.drop off) h hr hok hoff hmlen hctl hb
+          rw [if_pos hc] at hs
+          refine ⟨[(off, HDR), (off + HDR, FD * ((h.len - HDR) / FD))], ?_, ?_⟩
+          · simp only [iterFrom, hdec, hs, rightsOf, hr, if_true, Option.toList, List.drop_drop, List.append_nil,
+              List.singleton_append]
+          · intro x hx
+            simp only [List.mem_cons, List.not_mem_nil, or_false] at hx
+            simp only [HDR, FD] at *
+            rcases hx with rfl | rfl <;> simp only <;> omega
+        | false =>
+          have hs := hdrStep_foreign_ok base ctl off (mem.drop off) h hr hok hoff hctl hb
+          rw [if_pos hc] at hs
+          refine ⟨[(off, HDR)], ?_, ?_⟩
+          · simp [iterFrom, hdec, hs, rightsOf, hr, Option.toList]
+          · intro x hx
+            simp only [List.mem_cons, List.not_mem_nil, or_false] at hx
+            subst hx; simp only [HDR] at *; omega
+      · -- a further header follows
+        have hu : uNext ctl off h = some (off + cmsgAlign h.len) := by simp only [uNext, if_neg hc]
+        have hrec := ih fuel' (off + cmsgAlign h.len) (by simp only [HDR] at *; omega) (by simp only [HDR] at *; omega)
+          (by simp only [HDR] at *; omega)
+        simp only [wfWalk, hdec, hok, hu, if_true]
+        generalize hw : wfWalk uNext fuel' mem ctl (off + cmsgAlign h.len) = w at hrec ⊢
+        generalize hrr : iterFrom fuel base ctl (off + cmsgAlign h.len) (mem.drop (off + cmsgAlign h.len)) = rr at hrec
+        obtain ⟨wl, ws⟩ := w
+        cases hr : isRights h with
+        | true =>
+          have hs := hdrStep_rights_ok base ctl off (mem.drop off) h hr hok hoff hmlen hctl hb
+          rw [if_neg hc] at hs
+          have hit : iterFrom (fuel + 1) base ctl off (mem.drop off) =
+              ⟨groups4 ((h.len - HDR) / FD) (mem.drop (off + HDR)) :: rr.msgs,
+               (off, HDR) :: (off + HDR, FD * ((h.len - HDR) / FD)) :: rr.reads, rr.bad⟩ := by
+            simp only [iterFrom, hdec, hs, Option.toList, List.drop_drop, hrr, List.singleton_append, List.cons_append,
+              List.nil_append]
+          rw [hit]
+          cases ws with
+          | done =>
+            simp only [WalkPost] at hrec ⊢
+            obtain ⟨pre, hpre, hin⟩ := hrec
+            refine ⟨(off, HDR) :: (off + HDR, FD * ((h.len - HDR) / FD)) :: pre, ?_, ?_⟩
+            · rw [hpre]; simp only [rightsOf, hr, if_true]
+            · intro x hx
+              simp only [List.mem_cons] at hx
+              simp only [HDR, FD] at *
+              rcases hx with rfl | rfl | hx
+              · simp only; omega
+              · simp only; omega
+              · have := hin x hx; omega
+          | malformed o h' =>
+            simp only [WalkPost] at hrec ⊢
+            obtain ⟨pre, hpre, hin, hlo, ho, hd, hnok⟩ := hrec
+            refine ⟨(off, HDR) :: (off + HDR, FD * ((h.len - HDR) / FD)) :: pre, ?_, ?_, by omega, ho, hd, hnok⟩
+            · rw [hpre]; simp only [rightsOf, hr, if_true, List.cons_append]
+            · intro x hx
+              simp only [List.mem_cons] at hx
+              simp only [HDR, FD] at *
+              rcases hx with rfl | rfl | hx
+              · simp only; omega
+              · simp only; omega
+              · have := hin x hx; omega
+          | unmapped => simp only [WalkPost] at hrec
+          | fuel => simp only [WalkPost] at hrec
+        | false =>
+          have hs := hdrStep_foreign_ok base ctl off (mem.drop off) h hr hok hoff hctl hb
+          rw [if_neg hc] at hs
+          have hit : iterFrom (fuel + 1) base ctl off (mem.drop off) = ⟨rr.msgs, (off, HDR) :: rr.reads, rr.bad⟩ := by
+            simp only [iterFrom, hdec, hs, Option.toList, List.drop_drop, hrr, List.singleton_append, List.cons_append,
+              List.nil_append]
+          rw [hit]
+          cases ws with
+          | done =>
+            simp only [WalkPost] at hrec ⊢
+            obtain ⟨pre, hpre, hin⟩ := hrec
+            refine ⟨(off, HDR) :: pre, ?_, ?_⟩
+            · rw [hpre]; simp [rightsOf, hr]
+            · intro x hx
+              simp only [List.mem_cons] at hx
+              simp only [HDR] at *
+              rcases hx with rfl | hx
+              · simp only; omega
+              · have := hin x hx; omega
+          | malformed o h' =>
+            simp only [WalkPost] at hrec ⊢
+            obtain ⟨pre, hpre, hin, hlo, ho, hd, hnok⟩ := hrec
+            refine ⟨(off, HDR) :: pre, ?_, ?_, by omega, ho, hd, hnok⟩
+            · rw [hpre]; simp [rightsOf, hr]
+            · intro x hx
+              simp only [List.mem_cons] at hx
+              simp only [HDR] at *
+              rcases hx with rfl | hx
+              · simp only; omega
+              · have := hin x hx; omega
+          | unmapped => simp only [WalkPost] at hrec
+          | fuel => simp only [WalkPost] at hrec
+
+/-! ### termination, for every memory content, control length and address -/
+
+theorem nxthdr_some (base ctl off : Nat) (h : Hdr) (d : Nat) (hs : nxthdr base ctl off h = .ok (some d)) :
+    d = cmsgAlign h.len ∧ HDR ≤ h.len ∧ d + HDR < ctl - off := by
+  simp only [nxthdr] at hs
+  repeat' split at hs
+  all_goals first
+    | (cases hs; done)
+    | (cases hs; refine ⟨rfl, by omega, by omega⟩)
+
+theorem hdrStep_next (base ctl off : Nat) (m : List Nat) (h : Hdr) (item : Option (List Nat)) (rd : List (Nat × Nat))
+    (d : Nat) (hs : hdrStep base ctl off m h = .ok (item, rd, some d)) : HDR ≤ d ∧ d + HDR < ctl - off := by
+  have key : nxthdr base ctl off h = .ok (some d) := by
+    simp only [hdrStep] at hs
+    repeat' split at hs
+    all_goals first
+      | (cases hs; done)
+      | (cases hs; assumption)
+  obtain ⟨h1, h2, h3⟩ := nxthdr_some base ctl off h d key
+  have := align_ge h.len
+  exact ⟨by omega, h3⟩
+
+theorem nxthdr_error (base ctl off : Nat) (h : Hdr) (b : Bad) (hs : nxthdr base ctl off h = .error b) : b = .panic := by
+  simp only [nxthdr] at hs
+  repeat' split at hs
+  all_goals first
+    | (cases hs; done)
+    | (cases hs; rfl)
+
+theorem hdrStep_error_bad (base ctl off : Nat) (m : List Nat) (h : Hdr) (o : IterOut)
+    (hs : hdrStep base ctl off m h = .error o) : o.bad ≠ some .fuel ∧ o.bad ≠ none := by
+  simp only [hdrStep] at hs
+  repeat' split at hs
+  all_goals first
+    | (cases hs; done)
+    | (cases hs; rename_i b hb; have := nxthdr_error base ctl off h b hb; subst this; exact ⟨by simp, by simp⟩)
+    | (cases hs; refine ⟨?_, ?_⟩ <;> simp)
+
+theorem iterFrom_no_fuel (base ctl : Nat) : ∀ (fuel off : Nat) (m : List Nat), ctl - off < fuel →
+    (iterFrom fuel base ctl off m).bad ≠ some .fuel := by
+  intro fuel
+  induction fuel with
+  | zero => intro off m h; omega
+  | succ fuel ih =>
+    intro off m hf
+    simp only [iterFrom]
+    cases hdec : decHdr m with
+    | none => simp
+    | some h =>
+      simp only
+      cases hs : hdrStep base ctl off m h with
+      | error o => exact (hdrStep_error_bad base ctl off m h o hs).1
+      | ok v =>
+        obtain ⟨item, rd, nx⟩ := v
+        cases nx with
+        | none => simp
+        | some d =>
+          have := hdrStep_next base ctl off m h item rd d hs
+          simp only [HDR] at this
+          exact ih (off + d) (m.drop d) (by omega)
+
+/-! ### what happens at the first header that is not CMSG_OK -/
+
+/-- a malformed header NOT tagged SOL_SOCKET/SCM_RIGHTS: the iterator stops there, cleanly — unless `cmsg_len` is within
+23 of 2^64, where the alignment arithmetic of `cmsg_nxthdr!` overflows -/
+theorem lastStep_foreign (base ctl o : Nat) (m : List Nat) (h : Hdr) (hr : isRights h = false)
+    (hnok : cmsgOk ctl o h = false) (ho : o + HDR ≤ ctl) (hb : base + ctl < U64)
+    (hsmall : h.len < HDR ∨ h.len + 24 ≤ U64) : lastStep base ctl o m h = ⟨[], [(o, HDR)], none⟩ := by
+  have hr' : ¬ (h.typ = SCM_RIGHTS ∧ h.level = SOL_SOCKET) := by
+    intro hc; rw [(isRights_iff h).mpr hc] at hr; cases hr
+  have hn : ¬ (HDR ≤ h.len ∧ h.len ≤ ctl - o) := by
+    intro hc; rw [(cmsgOk_iff ctl o h).mpr hc] at hnok; cases hnok
+  have h1 := align_ge h.len
+  have h2 := align_lt h.len
+  have hnx : nxthdr base ctl o h = .ok none := by
+    simp only [nxthdr]
+    simp only [HDR, U64] at *
+    by_cases hl : h.len < 16
+    · rw [if_pos hl]
+    · rw [if_neg hl, if_neg (by omega), if_neg (by omega), if_neg (by omega), if_neg (by omega), if_pos (by omega)]
+  simp only [lastStep, hdrStep, if_neg hr', hnx, Option.toList]
+
+theorem lastStep_foreign_overflow (base ctl o : Nat) (m : List Nat) (h : Hdr) (hr : isRights h = false)
+    (hbig : U64 ≤ h.len + 23) : lastStep base ctl o m h = ⟨[], [(o, HDR)], some .panic⟩ := by
+  have hr' : ¬ (h.typ = SCM_RIGHTS ∧ h.level = SOL_SOCKET) := by
+    intro hc; rw [(isRights_iff h).mpr hc] at hr; cases hr
+  have h1 := align_ge h.len
+  have h2 : cmsgAlign h.len % 8 = 0 := by simp only [cmsgAlign]; omega
+  have hnx : nxthdr base ctl o h = .error .panic := by
+    simp only [nxthdr]
+    simp only [HDR, U64] at *
+    rw [if_neg (by omega)]
+    by_cases hl : 18446744073709551616 ≤ h.len + 8
+    · rw [if_pos hl]
+    · rw [if_neg hl, if_pos (by omega)]
+  simp only [lastStep, hdrStep, if_neg hr', hnx]
+
+/-- a malformed header tagged SOL_SOCKET/SCM_RIGHTS with `cmsg_len < 16`: arithmetic panic -/
+theorem lastStep_rights_short (base ctl o : Nat) (m : List Nat) (h : Hdr) (hr : isRights h = true)
+    (hshort : h.len < HDR) : lastStep base ctl o m h = ⟨[], [(o, HDR)], some .panic⟩ := by
+  rw [isRights_iff] at hr
+  by_cases hov : U64 ≤ base + o + h.len
+  · simp only [lastStep, hdrStep, if_pos hr, if_pos hov]
+  · simp only [lastStep, hdrStep, if_pos hr, if_neg hov, if_pos hshort]
+
+/-- a malformed header tagged SOL_SOCKET/SCM_RIGHTS with `cmsg_len` larger than what is left of the buffer (no
+overflow, payload mapped): a slice of `(cmsg_len - 16) / 4` descriptors is handed out — whatever the buffer length -/
+theorem lastStep_rights_long (base ctl o : Nat) (m : List Nat) (h : Hdr) (hr : isRights h = true)
+    (hnok : cmsgOk ctl o h = false) (hlong : HDR ≤ h.len) (ho : o + HDR ≤ ctl) (hb : base + ctl < U64)
+    (hov : base + o + h.len < U64) (hb24 : 24 ≤ base + o) (hsz : FD * ((h.len - HDR) / FD) ≤ ISIZE_MAX)
+    (hmap : FD * ((h.len - HDR) / FD) ≤ (m.drop HDR).length) :
+    lastStep base ctl o m h =
+      ⟨[groups4 ((h.len - HDR) / FD) (m.drop HDR)], [(o, HDR), (o + HDR, FD * ((h.len - HDR) / FD))], none⟩ := by
+  have hn : ¬ (HDR ≤ h.len ∧ h.len ≤ ctl - o) := by
+    intro hc; rw [(cmsgOk_iff ctl o h).mpr hc] at hnok; cases hnok
+  have h1 := align_ge h.len
+  have h2 := align_lt h.len
+  have hnx : nxthdr base ctl o h = .ok none := by
+    simp only [nxthdr]
+    simp only [HDR, U64] at *
+    rw [if_neg (by omega), if_neg (by omega), if_neg (by omega), if_neg (by omega), if_neg (by omega), if_pos (by omega)]
+  rw [isRights_iff] at hr
+  simp only [lastStep, hdrStep, if_pos hr, hnx]
+  simp only [HDR, FD, U64, ISIZE_MAX] at *
+  rw [if_neg (by omega), if_neg (by omega), if_neg (by omega), if_neg (by omega)]
+  simp only [Option.toList]
+
+/-- same, the payload not (entirely) mapped: the consumer of the slice faults -/
+theorem lastStep_rights_long_fault (base ctl o : Nat) (m : List Nat) (h : Hdr) (hr : isRights h = true)
+    (hnok : cmsgOk ctl o h = false) (hlong : HDR ≤ h.len) (ho : o + HDR ≤ ctl) (hb : base + ctl < U64)
+    (hov : base + o + h.len < U64) (hb24 : 24 ≤ base + o) (hsz : FD * ((h.len - HDR) / FD) ≤ ISIZE_MAX)
+    (hmap : (m.drop HDR).length < FD * ((h.len - HDR) / FD)) :
+    lastStep base ctl o m h = ⟨[], [(o, HDR), (o + HDR, FD * ((h.len - HDR) / FD))], some .fault⟩ := by
+  have hn : ¬ (HDR ≤ h.len ∧ h.len ≤ ctl - o) := by
+    intro hc; rw [(cmsgOk_iff ctl o h).mpr hc] at hnok; cases hnok
+  have h1 := align_ge h.len
+  have h2 := align_lt h.len
+  have hnx : nxthdr base ctl o h = .ok none := by
+    simp only [nxthdr]
+    simp only [HDR, U64] at *
+    rw [if_neg (by omega), if_neg (by omega), if_neg (by omega), if_neg (by omega), if_neg (by omega), if_pos (by omega)]
+  rw [isRights_iff] at hr
+  simp only [lastStep, hdrStep, if_pos hr, hnx]
+  simp only [HDR, FD, U64, ISIZE_MAX] at *
+  rw [if_neg (by omega), if_neg (by omega), if_neg (by omega), if_pos (by omega)]
+
+/-- a malformed SCM_RIGHTS header never ends the run silently with nothing handed out: crash, or an item built from
+the malformed header -/
+theorem lastStep_rights_never_clean (base ctl o : Nat) (m : List Nat) (h : Hdr) (hr : isRights h = true) :
+    (lastStep base ctl o m h).bad ≠ none ∨ (lastStep base ctl o m h).msgs.length = 1 := by
+  rw [isRights_iff] at hr
+  by_cases c1 : U64 ≤ base + o + h.len
+  · left; simp [lastStep, hdrStep, hr, c1]
+  · by_cases c2 : h.len < HDR
+    · left; simp only [lastStep, hdrStep, if_pos hr, if_neg c1, if_pos c2]; simp
+    · cases hnx : nxthdr base ctl o h with
+      | error b => left; simp only [lastStep, hdrStep, if_pos hr, if_neg c1, if_neg c2, hnx]; simp
+      | ok nx =>
+        by_cases c3 : ISIZE_MAX < FD * ((h.len - HDR) / FD)
+        · left; simp only [lastStep, hdrStep, if_pos hr, if_neg c1, if_neg c2, hnx, if_pos c3]; simp
+        · by_cases c4 : (m.drop HDR).length < FD * ((h.len - HDR) / FD)
+          · left; simp only [lastStep, hdrStep, if_pos hr, if_neg c1, if_neg c2, hnx, if_neg c3, if_pos c4]; simp
+          · right; simp only [lastStep, hdrStep, if_pos hr, if_neg c1, if_neg c2, hnx, if_neg c3, if_neg c4]
+            simp [Option.toList]
 
 theorem createSend_layout (fds : List Nat) :
     createSend fds =
@@ -213,5 +612,107 @@ theorem createSend_layout (fds : List Nat) :
   rw [this, ← List.drop_drop, List.drop_left' rfl, List.drop_replicate, he]
   congr 3
   omega
+
+/-! ### userland CMSG_NXTHDR against the kernel's `__cmsg_nxthdr`: only the trailing 16-byte slot differs -/
+
+theorem trailing_slot_len (ctl off : Nat) (h : Hdr) (hoff : off + HDR = ctl) (hok : cmsgOk ctl off h = true) :
+    h.len = HDR := by
+  rw [cmsgOk_iff] at hok
+  simp only [HDR] at *; omega
+
+theorem rightsOf_append (mem : List Nat) (a b : List (Nat × Hdr)) :
+    rightsOf mem (a ++ b) = rightsOf mem a ++ rightsOf mem b := by
+  induction a with
+  | nil => rfl
+  | cons x t ih =>
+    obtain ⟨o, h⟩ := x
+    simp only [List.cons_append, rightsOf]
+    split
+    · rw [ih]; rfl
+    · exact ih
+
+/-- how the kernel's walk `wk` relates to the userland walk `wu` from the same offset -/
+def SlotRel (ctl : Nat) (wu wk : List (Nat × Hdr) × Stop) : Prop :=
+  wk = wu ∨
+  (wu.2 = .done ∧ wk.2 = .done ∧ ∃ h', h'.len = HDR ∧ wk.1 = wu.1 ++ [(ctl - HDR, h')]) ∨
+  (wu.2 = .done ∧ wk.1 = wu.1 ∧ ∃ h', wk.2 = .malformed (ctl - HDR) h')
+
+theorem walk_slot (mem : List Nat) (ctl : Nat) (hmem : ctl ≤ mem.length) : ∀ (fuel off : Nat), off + HDR ≤ ctl →
+    ctl - off < fuel → SlotRel ctl (wfWalk uNext fuel mem ctl off) (wfWalk kNext fuel mem ctl off) := by
+  intro fuel
+  induction fuel with
+  | zero => intro off _ h; omega
+  | succ fuel ih =>
+    intro off hoff hf
+    obtain ⟨h, hdec⟩ := decHdr_some (mem.drop off) (by simp only [List.length_drop]; omega)
+    cases hok : cmsgOk ctl off h with
+    | false => left; simp only [wfWalk, hdec, hok, Bool.false_eq_true, if_false]
+    | true =>
+      have hlen := (cmsgOk_iff ctl off h).mp hok
+      have ha1 := align_ge h.len
+      by_cases hc : ctl < off + cmsgAlign h.len + HDR
+      · left
+        have hu : uNext ctl off h = none := by simp only [uNext, if_pos (by omega : ctl ≤ off + cmsgAlign h.len + HDR)]
+        have hk : kNext ctl off h = none := by simp only [kNext, if_pos hc]
+        simp only [wfWalk, hdec, hok, hu, hk]
+      · by_cases he : ctl = off + cmsgAlign h.len + HDR
+        · -- the next header would sit in the trailing slot: userland stops, the kernel looks at it
+          have hu : uNext ctl off h = none := by simp only [uNext, if_pos (by omega : ctl ≤ off + cmsgAlign h.len + HDR)]
+          have hk : kNext ctl off h = some (ctl - HDR) := by
+            simp only [kNext, if_neg hc]; congr 1; simp only [HDR] at *; omega
+          obtain ⟨fuel, rfl⟩ : ∃ f, fuel = f + 1 := ⟨fuel - 1, by simp only [HDR] at *; omega⟩
+          obtain ⟨h', hdec'⟩ := decHdr_some (mem.drop (ctl - HDR)) (by simp only [List.length_drop, HDR] at *; omega)
+          cases hok' : cmsgOk ctl (ctl - HDR) h' with
+          | false =>
+            right; right
+            simp only [wfWalk, hdec, hok, hu, hk, hdec', hok', if_true, Bool.false_eq_true, if_false]
+            exact ⟨trivial, trivial, h', rfl⟩
+          | true =>
+            right; left
+            have hl := trailing_slot_len ctl (ctl - HDR) h' (by simp only [HDR] at *; omega) hok'
+            have hk' : kNext ctl (ctl - HDR) h' = none := by
+              have := align_ge h'.len
+              simp only [kNext, HDR] at *; rw [if_pos (by omega)]
+            simp only [wfWalk, hdec, hok, hu, hk, hdec', hok', hk', if_true]
+            exact ⟨trivial, trivial, h', hl, rfl⟩
+        · have hu : uNext ctl off h = some (off + cmsgAlign h.len) := by simp only [uNext, if_neg (by omega : ¬ ctl ≤ off + cmsgAlign h.len + HDR)]
+          have hk : kNext ctl off h = some (off + cmsgAlign h.len) := by simp only [kNext, if_neg hc]
+          have hrec := ih (off + cmsgAlign h.len) (by omega) (by simp only [HDR] at *; omega)
+          simp only [wfWalk, hdec, hok, hu, hk, if_true]
+          generalize wfWalk uNext fuel mem ctl (off + cmsgAlign h.len) = wu at hrec ⊢
+          generalize wfWalk kNext fuel mem ctl (off + cmsgAlign h.len) = wk at hrec ⊢
+          rcases hrec with rfl | ⟨h1, h2, h', hl, h3⟩ | ⟨h1, h2, h', h3⟩
+          · left; rfl
+          · right; left; exact ⟨h1, h2, h', hl, by simp only [h3, List.cons_append]⟩
+          · right; right; exact ⟨h1, by simp only [h2], h', h3⟩
+
+/-! ### the send side is well-formed for the kernel and carries exactly the descriptors -/
+
+theorem createSend_decHdr (fds : List Nat) (hn : 16 + 4 * fds.length < 256 ^ 8) :
+    decHdr ((createSend fds).1.drop 0) = some ⟨16 + 4 * fds.length, SOL_SOCKET, SCM_RIGHTS⟩ := by
+  rw [createSend_layout, List.drop_zero, len_eq, List.append_assoc]
+  exact decHdr_enc _ _ _ _ (by simp only [HDR, FD]; exact hn) (by decide) (by decide)
+
+theorem createSend_ctl (fds : List Nat) : (createSend fds).2 = cmsgAlign (16 + 4 * fds.length) := by
+  rw [createSend_layout]; exact space_eq fds.length
+
+theorem createSend_walk (next : Nat → Nat → Hdr → Option Nat) (fds : List Nat) (hn : 16 + 4 * fds.length < 256 ^ 8)
+    (hnext : next (createSend fds).2 0 ⟨16 + 4 * fds.length, SOL_SOCKET, SCM_RIGHTS⟩ = none) :
+    wfPrefix next (createSend fds).1 (createSend fds).2 = ([(0, ⟨16 + 4 * fds.length, SOL_SOCKET, SCM_RIGHTS⟩)], .done) := by
+  have hc := createSend_ctl fds
+  have ha := align_ge (16 + 4 * fds.length)
+  have hok : cmsgOk (createSend fds).2 0 ⟨16 + 4 * fds.length, SOL_SOCKET, SCM_RIGHTS⟩ = true := by
+    rw [cmsgOk_iff]; simp only [HDR]; omega
+  simp only [wfPrefix]
+  rw [if_neg (by simp only [HDR]; omega)]
+  simp only [wfWalk, createSend_decHdr fds hn, hok, hnext, if_true]
+
+theorem createSend_rights (fds : List Nat) (hf : ∀ f ∈ fds, f < 256 ^ 4) :
+    rightsOf (createSend fds).1 [(0, ⟨16 + 4 * fds.length, SOL_SOCKET, SCM_RIGHTS⟩)] = [fds] := by
+  have hr : isRights ⟨16 + 4 * fds.length, SOL_SOCKET, SCM_RIGHTS⟩ = true := by rw [isRights_iff]; exact ⟨rfl, rfl⟩
+  simp only [rightsOf, hr, if_true]
+  rw [createSend_layout, List.append_assoc, Nat.zero_add, List.drop_left' (encHdr_length _ _ _)]
+  have : (16 + 4 * fds.length - HDR) / FD = fds.length := by simp only [HDR, FD]; omega
+  rw [this, groups4_enc fds _ hf]
 
 end TinyVerif.Cmsg
